@@ -8,6 +8,7 @@
   by statement after the C, file:line cited.
 -/
 import Mpir.Model.AllocSafeMpz4
+import Mpir.Model.Gcd
 namespace Mpir.AllocSafe5
 open Mpir Mpir.AllocSafe
 open Mpir.Mpz (sgn)
@@ -126,7 +127,7 @@ def mpn_gcd_1 (s : St) (up : Ptr) (n vl : Nat) : Nat × St :=
 def stripLow (U : List Nat) : Nat × Nat × Buf × Nat × Bool :=
   let zl := (U.takeWhile (· == 0)).length                                     -- :82-84
   let usize := U.length - zl                                                  -- :85
-  let zb := Bits.ctz (U.getD zl 0)                                            -- :86
+  let zb := Gcd.ctz (U.getD zl 0)                                             -- :86
   let T := U.drop zl                                                          -- :87 tp = up
   if zb != 0 then                                                             -- :89
     let r := (Mpir.rshift T zb).1                                             -- :91
